@@ -4,7 +4,7 @@ Decision on the implementation: exporter-produced files are rewritten by random 
 rewrites {definite<->indefinite per container/string, chunking, head widening, map-member permutation, unknown integer keys
 (positive, negative, beyond int64) with arbitrary well-formed values}; the library reader must return the same dump for the
 rewritten file as for the original; the independent Lean reader cross-checks that the rewrite preserved the denotation."""
-import vlib, cdnsgen as G, cborgen, refexp, expcheck as E
+import vlib, cdnsgen as G, cborgen, refexp, expcheck as E, foreign
 
 
 def check(run):
@@ -33,7 +33,13 @@ def check(run):
                 run.spec_fail.append(("reenc:unparsable-output", s[0][:2000], {"why": str(e)})); continue
             for j in range(k):
                 p = rng.choice([0.05, 0.2, 0.5, 0.9])
-                new = cborgen.encode(top, rng, p, cborgen.unknown_member if rng.random() < 0.7 else None)
+                src = top
+                if j == 0:
+                    # RFC 8618 level rewrite: a table entry written twice, references spread over both copies (as other writers may do)
+                    d2, nd = foreign.dup_table_entries(data, rng)
+                    if nd:
+                        src = cborgen.parse(d2)[0]
+                new = cborgen.encode(src, rng, p, cborgen.unknown_member if rng.random() < 0.7 else None)
                 lines.append("rd %s %s" % (rng.choice(["s", "s", "f"]), new.hex()))
                 metas.append((orig, data, new))
     answers = G.run_rd(lines)
